@@ -200,13 +200,37 @@ def to_sx(pt) -> Any:
 # spec trees -> real objects
 # ------------------------------------------------------------------------------------------------
 
+_INTERN: Optional[dict] = None
+
+
+def _e(x):
+    """time expression of a spec tree; while `build_shared` is active, equal strings become ONE ExpressionScalar
+    object (a table entry time / function duration and a measurement window then share their evaluation caches)"""
+    if _INTERN is None or not isinstance(x, str):
+        return x
+    if x not in _INTERN:
+        from qupulse.expressions import ExpressionScalar
+        _INTERN[x] = ExpressionScalar(x)
+    return _INTERN[x]
+
+
+def build_shared(spec: dict):
+    """like `build`, with equal time-expression strings interned to one expression object"""
+    global _INTERN
+    _INTERN = {}
+    try:
+        return build(spec)
+    finally:
+        _INTERN = None
+
+
 def _kw(spec, *names):
     out = {}
     for n in names:
         v = spec.get(n)
         if v:
             out[{'meas': 'measurements', 'cons': 'parameter_constraints', 'id': 'identifier'}[n]] = \
-                [tuple(m) for m in v] if n == 'meas' else v
+                [(m[0], _e(m[1]), _e(m[2])) for m in v] if n == 'meas' else v
     return out
 
 
@@ -222,11 +246,12 @@ def build(spec: dict):
     if k == 'const':
         return qp.ConstantPT(spec['dur'], dict(spec['amps']), **_kw(spec, 'id', 'meas'))
     if k == 'table':
-        return qp.TablePT({ch: [tuple(e) for e in es] for ch, es in spec['entries']}, **_kw(spec, 'id', 'meas', 'cons'))
+        return qp.TablePT({ch: [(_e(e[0]),) + tuple(e[1:]) for e in es] for ch, es in spec['entries']},
+                          **_kw(spec, 'id', 'meas', 'cons'))
     if k == 'point':
         return qp.PointPT([tuple(e) for e in spec['entries']], list(spec['chans']), **_kw(spec, 'id', 'meas', 'cons'))
     if k == 'func':
-        return qp.FunctionPT(spec['expr'], spec['dur'], spec['ch'], **_kw(spec, 'id', 'meas', 'cons'))
+        return qp.FunctionPT(spec['expr'], _e(spec['dur']), spec['ch'], **_kw(spec, 'id', 'meas', 'cons'))
     if k == 'seq':
         return qp.SequencePT(*[build(s) for s in spec['subs']], **_kw(spec, 'id', 'meas', 'cons'))
     if k == 'rep':
@@ -302,14 +327,15 @@ def fstr(x: F) -> str:
 class Env:
     """Parameters visible at a point of the tree: name -> ('int'|'time'|'volt', value or value list)."""
 
-    def __init__(self, ints, times, volts, idx=None):
+    def __init__(self, ints, times, volts, idx=None, wins=None):
         self.ints = dict(ints)       # name -> int value (>= 0)
         self.times = dict(times)     # name -> power of two Fraction (> 0)
         self.volts = dict(volts)     # name -> dyadic Fraction
         self.idx = dict(idx or {})   # loop index name -> list of int values
+        self.wins = dict(wins or {})  # name -> dyadic Fraction >= 0, only used in measurement windows
 
     def with_idx(self, name, values):
-        e = Env(self.ints, self.times, self.volts, self.idx)
+        e = Env(self.ints, self.times, self.volts, self.idx, self.wins)
         e.idx[name] = list(values)
         return e
 
@@ -336,7 +362,14 @@ class Gen:
             values[k] = int(v)
         for k, v in itertools.chain(times.items(), volts.items()):
             values[k] = float(v) if (v.denominator != 1 or r.random() < 0.5) else int(v)
-        return Env(ints, times, volts), values
+        # window parameters: only measurement declarations mention them, so mappings may redefine them freely
+        # (in particular in terms of the outer parameter of the same name)
+        wins = {}
+        if self.stream != 'decimal':
+            wins = {'w%d' % i: F(r.randrange(0, 9), 8) for i in range(2)}
+            for k, v in wins.items():
+                values[k] = float(v)
+        return Env(ints, times, volts, None, wins), values
 
     def fresh(self, prefix):
         self.counter += 1
@@ -419,6 +452,16 @@ class Gen:
         if literal:
             v = F(r.randrange(0, int((bound if bound is not None and bound > 0 else 1) * 8) + 1), 8)
             return fstr(v), v
+        wn = list(env.wins)
+        if wn and r.random() < 0.3:
+            a = r.choice(wn)
+            k = r.random()
+            if k < 0.6:
+                return a, env.wins[a]
+            if k < 0.8:
+                b = r.choice(wn)
+                return '%s + %s' % (a, b), env.wins[a] + env.wins[b]
+            return '%s/2' % a, env.wins[a] / 2
         if bound is not None and bound > 0 and r.random() < 0.8:
             v = F(r.randrange(0, int(bound * 8) + 1), 8)
             return fstr(v), v
@@ -638,19 +681,46 @@ class Gen:
                 lc = list(dict.fromkeys(lc))
             lhs = self.atom(lc, env, common, force_idx, allow_multi=False, depth=depth + 1)
             rhs = self.atom(rc, env, common, None, allow_multi=False, depth=depth + 1)
+            if r.random() < 0.3:
+                lhs = self.wrap_atomic(lhs, lc, env, mapping_only=True)
+            if r.random() < 0.3:
+                rhs = self.wrap_atomic(rhs, rc, env, mapping_only=True)
             # PF-13 (C03): ArithmeticAtomicPT.parameter_names omits its own measurement parameters, so its
             # declarations use literals only here
             spec = {'k': 'aarith', 'lhs': lhs, 'op': r.choice(['+', '-']), 'rhs': rhs,
                     'meas': self.measurements(env, common[1], literal=True)}
         return self.maybe_id(spec)
 
-    def wrap_atomic(self, sub: dict, chans, env) -> dict:
-        """a wrapper that keeps atomicity and works inside AtomicMultiChannelPT"""
+    def window_remap(self, env: Env, names) -> Dict[str, str]:
+        """re-definitions of window parameters, mostly in terms of the *same-named* outer parameter"""
         r = self.rng
-        if r.random() < 0.5:
+        used = [w for w in env.wins if w in names]
+        pm: Dict[str, str] = {}
+        if not used:
+            return pm
+        others = list(env.wins)
+        k = r.random()
+        if k < 0.25 and len(used) >= 2:
+            a, b = used[0], used[1]
+            pm[a], pm[b] = b, a                                   # a swap
+        else:
+            for w in used:
+                if r.random() < 0.7:
+                    o = r.choice(others)
+                    pm[w] = r.choice(['%s + %s' % (w, o), '%s/2' % w, '%s + 0.25' % w, '2*%s' % w, o])
+        return pm
+
+    def wrap_atomic(self, sub: dict, chans, env, mapping_only=False) -> dict:
+        """a wrapper that keeps atomicity and works inside AtomicMultiChannelPT / ArithmeticAtomicPT"""
+        r = self.rng
+        if not mapping_only and r.random() < 0.4:
             return {'k': 'arith', 'body': sub, 'op': r.choice(['+', '-', '*']), 'scalar': self.volt(env)[0],
                     'pt_lhs': r.random() < 0.5}
-        return {'k': 'map', 'body': sub, 'pm': None, 'mm': None, 'cm': None}
+        pt = sub.get('_pt') or build(sub)
+        pm = self.window_remap(env, pt.parameter_names)
+        mm = [[n, r.choice(MEAS_POOL + ['x', 'y'])] for n in sorted(pt.measurement_names) if r.random() < 0.4]
+        return {'k': 'map', 'body': sub, 'pm': [[k, v] for k, v in pm.items()] if pm else None, 'mm': mm or None,
+                'cm': None}
 
     # -- composite -------------------------------------------------------------------------------------
     def template(self, depth: int, chans: List[str], env: Env, force_idx=None, under_trafo=False) -> dict:
@@ -735,9 +805,10 @@ class Gen:
             inner = inner + extra
             r.shuffle(inner)
         # parameters: inner environment = fresh names bound to outer expressions of the same kind
-        inner_env = Env(env.ints, env.times, env.volts, env.idx)
+        inner_env = Env(env.ints, env.times, env.volts, env.idx, env.wins)
         pm = {}
         style = r.random()
+        remap_windows = r.random() < 0.35
         if style < 0.25:
             names = list(env.volts)
             if len(names) >= 2:
@@ -768,6 +839,8 @@ class Gen:
         # parameter / measurement mappings can only mention names the built body declares
         names = body['_pt'].parameter_names
         pm = {k: v for k, v in pm.items() if k in names}
+        if remap_windows:
+            pm.update(self.window_remap(env, names))
         mm = []
         if r.random() < 0.5:
             for n in sorted(body['_pt'].measurement_names):
@@ -1101,7 +1174,7 @@ def observe(case: dict, rng=None, grid: Optional[List[F]] = None, want_samples=T
     import random
     from qupulse.program.loop import to_waveform
     rng = rng or random.Random(0)
-    pt = build(case['spec'])
+    pt = build_shared(case['spec']) if case.get('share') else build(case['spec'])
     out: Dict[str, Any] = {'pt': pt}
     params = dict(case['params'])
     kwargs: Dict[str, Any] = {'parameters': params}
@@ -1112,15 +1185,22 @@ def observe(case: dict, rng=None, grid: Optional[List[F]] = None, want_samples=T
     if case.get('single'):
         kwargs['to_single_waveform'] = set(case['single'])
     impl: Dict[str, Any] = {}
-    # template duration (C04)
-    try:
-        td = pt.duration.evaluate_in_scope(dict(params))
-        impl['tdur'] = ('ok', num_frac(td), exact_frac(td))
-    except Exception as exc:  # noqa
-        impl['tdur'] = ('error', core.classify_exception(exc))
+    # template duration (C04): evaluated numerically before the program is created, or after it ('tdur_after')
+    def _tdur():
+        try:
+            td = pt.duration.evaluate_in_scope(dict(params))
+            return ('ok', num_frac(td), exact_frac(td))
+        except Exception as exc:  # noqa
+            return ('error', core.classify_exception(exc))
+    if not case.get('tdur_after'):
+        impl['tdur'] = _tdur()
     try:
         prog = pt.create_program(**kwargs)
+        if 'tdur' not in impl:
+            impl['tdur'] = _tdur()
     except Exception as exc:  # noqa
+        if 'tdur' not in impl:
+            impl['tdur'] = _tdur()
         impl['status'] = 'error'
         impl['error'] = core.classify_exception(exc)
         out['impl'] = impl
@@ -1239,4 +1319,4 @@ def case_json(case: dict) -> dict:
     """JSON-able form of a case (for replay files and the corpus)"""
     return {'spec': strip(case['spec']), 'params': {k: (v if isinstance(v, int) else float(v)) for k, v in case['params'].items()},
             'cm': case.get('cm') or {}, 'mm': case.get('mm'), 'single': list(case.get('single') or []),
-            'fault': case.get('fault')}
+            'fault': case.get('fault'), 'share': bool(case.get('share')), 'tdur_after': bool(case.get('tdur_after'))}
